@@ -17,3 +17,7 @@ func VerifNewTransport(m messages.MessageInformator, conn Conn, modeVariant mode
 	}
 	return t, nil
 }
+
+// VerifDial, when set, replaces the TCP dial in NewTCP (the call is inserted by
+// the instrumenter at the top of NewTCP).
+var VerifDial func(cfg TCPConnConfig) (Conn, error)
